@@ -11,7 +11,14 @@ pub struct TempDir {
 
 impl TempDir {
     pub fn new(tag: &str) -> TempDir {
-        let base = std::env::var("VERIF_TMP").map(PathBuf::from).unwrap_or_else(|_| std::env::temp_dir());
+        let base = std::env::var("VERIF_TMP").map(PathBuf::from).unwrap_or_else(|_| {
+            let shm = PathBuf::from("/dev/shm");
+            if shm.is_dir() {
+                shm
+            } else {
+                std::env::temp_dir()
+            }
+        });
         let n = COUNTER.fetch_add(1, Ordering::Relaxed);
         let p = base.join(format!("vcheck-{}-{}-{}", tag, std::process::id(), n));
         let _ = std::fs::create_dir_all(&p);
